@@ -31,6 +31,8 @@ func runC08(c *core.Ctx) {
 	c.Rule("C08.collect", "A1: Service.Collect: closed topic ⇒ restoreClosedTopic first (its error returned before anything else); then topics.Collect (error returned); then, and only then, PersistTopics∧level=OK ⇒ clearHistory (its error returned) else persistEventState; the event passed on is the collected event")
 	c.Rule("C08.recheck", "A1/A5: restoreClosedTopic re-reads closedTopics[topic] after taking the write lock and restores only if it is still closed; the flag is cleared only after a successful restore")
 	c.Rule("C08.mapping", "A7: convertEventStateFromAlert, convertEventStateToAlert and EventState.AlertEventState copy the same set of fields (every field of the persisted record; ID is the key); EventState.Reset assigns every field of the record")
+	c.Rule("C08.seek", "A1 (shared with C15): the storage layer deletes a key (an event state, a topic bucket) only after comparing the key its cursor landed on with the key sought; see C15.seek")
+	c.Rule("C08.keybuf", "A1: loadSavedTopicStates re-uses one buffer for the bucket key of every topic: on every path of the walk callback that lets the walk continue (returns nil) the buffer is reset after the key was written, so the next topic's key is that topic alone")
 	c.Rule("C08.keys", "A3: persistEventState puts under bucket []byte(event.Topic) and key event.State.ID, clearHistory deletes the same bucket/key; the loaders key the restored map by the stored key and hand it to RestoreTopicNoCopy under the bucket's topic; each runs in one Update/View closure whose storage errors are returned")
 	c.Rule("C08.open", "A2: Service.Open runs MigrateTopicStoreV1V2, then loadSavedTopicStates, then APIServer.Open, each only after the previous succeeded")
 	c.Rule("C08.rereg", "A2: restoreTopic re-registers every handler of the topic after the states were restored (loop without early exit) and resets the decode buffer after every element")
@@ -47,6 +49,12 @@ func runC08(c *core.Ctx) {
 	c08Recheck(c, sp)
 	c08Mapping(c, sp)
 	c08Keys(c, sp)
+	c08KeyBuf(c, sp)
+	if st := c.P.Pkg("services/storage"); st != nil {
+		c15SeekAs(c, st, "C08.seek")
+	} else {
+		c.Undecided("C08.seek", "anchor:services/storage", token.NoPos, "package not loaded")
+	}
 	c08Open(c, sp)
 	c08Rereg(c, sp)
 	if ap := c.P.Pkg("alert"); ap != nil {
@@ -766,4 +774,69 @@ func c08Precedence(c *core.Ctx, root *packages.Package) {
 			}
 			return "zero"
 		}})
+}
+
+func c08KeyBuf(c *core.Ctx, sp *packages.Package) {
+	info := sp.TypesInfo
+	fn := c.Need("C08.keybuf", "services/alert", "Service", "loadSavedTopicStates")
+	if fn == nil {
+		return
+	}
+	fl := findFuncLit(fn.Decl.Body)
+	if fl == nil {
+		c.Undecided("C08.keybuf", "Service.loadSavedTopicStates", fn.Decl.Pos(), "walk callback not found")
+		return
+	}
+	// a buffer declared outside the callback and written inside it?
+	shared := false
+	ast.Inspect(fl.Body, func(n ast.Node) bool {
+		if call, ok := n.(*ast.CallExpr); ok {
+			if f := core.Callee(info, call); f != nil && core.RecvTypeName(f) == "Buffer" && strings.HasPrefix(f.Name(), "Write") {
+				if sel, ok := call.Fun.(*ast.SelectorExpr); ok {
+					if id, ok := ast.Unparen(sel.X).(*ast.Ident); ok {
+						if obj := info.Uses[id]; obj != nil && !(fl.Pos() <= obj.Pos() && obj.Pos() <= fl.End()) {
+							shared = true
+						}
+					}
+				}
+			}
+		}
+		return true
+	})
+	if !shared {
+		c.Ok("C08.keybuf", "Service.loadSavedTopicStates")
+		c.Note("C08.keybuf: the walk callback builds its key without a buffer shared between topics")
+		return
+	}
+	eng := &an.Engine{Prog: c.P, Info: info,
+		TrackCall: func(call *ast.CallExpr, callee *types.Func) string {
+			if callee != nil && core.RecvTypeName(callee) == "Buffer" {
+				switch {
+				case strings.HasPrefix(callee.Name(), "Write"):
+					return "write"
+				case callee.Name() == "Reset":
+					return "reset"
+				}
+			}
+			return ""
+		}}
+	paths, err := eng.RunBody(fl.Type, nil, fl.Body)
+	if err != nil {
+		c.Undecided("C08.keybuf", "Service.loadSavedTopicStates", fl.Pos(), "%v", err)
+		return
+	}
+	good := len(paths) > 0
+	for _, p := range paths {
+		if len(p.Rets) != 1 || p.Rets[0] != "nil" {
+			continue // an error ends the walk
+		}
+		w := an.Seq(p, "write", "reset")
+		if !(w == "" || strings.HasSuffix(w, "reset") || strings.HasPrefix(w, "reset,write") && !strings.Contains(w[len("reset,"):], "reset") && strings.Count(w, "write") >= 1 && strings.HasPrefix(w, "reset")) {
+			good = false
+			c.Fail("C08.keybuf", "Service.loadSavedTopicStates#reset", p.RetPos, "the walk continues on a path that leaves the previous topic's name in the shared key buffer ([%s]; %s): every later topic is looked up under a concatenated key, found empty, and restored without its event states — those alerts silently restart at OK", w, p.Cond())
+		}
+	}
+	if good {
+		c.Ok("C08.keybuf", "Service.loadSavedTopicStates")
+	}
 }
